@@ -28,6 +28,10 @@ class Unknown(Exception):
     pass
 
 
+class Definite(Exception):
+    """The construct is definitely wrong (not merely not understood)."""
+
+
 def run(ctx: Ctx) -> Collector:
     c = Collector("R22")
     _operators(ctx, c)
@@ -48,7 +52,7 @@ def _member(t: Term, env: Dict[Term, Tuple[str, bool]]) -> Tuple[str, bool]:
             return ("cofin", True)
         k, m = _member(t[2][0], env)
         if k != "fin":
-            raise Unknown(f"OutSet(...) is given a co-finite argument {T.show(t[2][0])}")
+            raise Definite(f"OutSet(...) is given the co-finite set {T.show(t[2][0])} (it needs the finite set of excluded elements)")
         return ("cofin", not m)
     if t[0] == "call" and t[1] == T.glob("frozenset"):
         if not t[2]:
@@ -61,6 +65,8 @@ def _member(t: Term, env: Dict[Term, Tuple[str, bool]]) -> Tuple[str, bool]:
         if t[1] == "&":
             return ("fin" if "fin" in (ka, kb) else "cofin", a and b)
         return ("cofin" if ka == "cofin" and kb == "fin" else "fin", a and not b)
+    if t[0] == "op":
+        raise Definite(f"operator {t[1]} in {T.show(t)} is not a set operation")
     raise Unknown(f"set expression {T.show(t)} not understood")
 
 
@@ -89,8 +95,11 @@ def _operators(ctx: Ctx, c: Collector) -> None:
                 except boolfn.NotBoolean:
                     rets = None
                     break
+            if rets is not None and not rets:
+                c.bad("op", qn, label, "nothing is returned on this branch (the operator yields None)", fi.loc)
+                continue
             if not rets:
-                c.unk("op", qn, label, "no return found for this branch", fi.loc)
+                c.unk("op", qn, label, "branch condition not understood", fi.loc)
                 continue
             r = rets[0]
             bad: List[str] = []
@@ -115,6 +124,9 @@ def _operators(ctx: Ctx, c: Collector) -> None:
                         bad.append(f"x {'in' if self_has else 'not in'} self, x {'in' if other_has else 'not in'} other: result {'contains' if got else 'lacks'} x")
                     elif kind != want_kind:
                         bad.append(f"result is a {kind}ite set where a {want_kind}ite one is required")
+            except Definite as ex:
+                c.bad("op", qn, label, f"returns {T.show(r.term)}: {ex}", ctx.loc(fi, r))
+                continue
             except Unknown as ex:
                 c.unk("op", qn, label, str(ex), ctx.loc(fi, r))
                 continue
@@ -156,6 +168,8 @@ def _pointwise(t: Term, env: Dict[Term, bool]) -> bool:
         return (a or b) if t[1] == "|" else (a and b) if t[1] == "&" else (a and not b)
     if t[0] == "call" and t[1] == T.glob("frozenset") and not t[2]:
         return False
+    if t[0] == "op":
+        raise Definite(f"operator {t[1]} in {T.show(t)} is not a set operation")
     raise Unknown(f"set expression {T.show(t)} not understood")
 
 
@@ -188,7 +202,10 @@ def _triple(ctx: Ctx, c: Collector) -> None:
 
     raises = s.of_kind("raise")
     ret = s.returns[-1] if s.returns else None
-    if ret is None or ret.term[0] != "tuple" or len(ret.term[1]) != 2:
+    if ret is None:
+        c.bad("triple", TRIPLE, "returns (part_a, part_b)", "nothing is returned", loc)
+        return
+    if ret.term[0] != "tuple" or len(ret.term[1]) != 2:
         c.unk("triple", TRIPLE, "shape", "does not return a pair", loc)
         return
     problems: Dict[str, List[str]] = {"missing": [], "infer": [], "disjoint": [], "cover": [], "order": []}
@@ -266,6 +283,9 @@ def _triple(ctx: Ctx, c: Collector) -> None:
                     problems["cover"].append(f"{tag}: an element with union={eu}, part_a={ea}, part_b={eb} is accepted although union != part_a | part_b")
                 elif fired and not overlap and not uncovered:
                     problems["cover"].append(f"{tag}: a consistent description (union={eu}, part_a={ea}, part_b={eb}) is rejected")
+    except Definite as ex:
+        c.bad("triple", TRIPLE, "inference equations", str(ex), loc)
+        return
     except (Unknown, boolfn.NotBoolean) as ex:
         c.unk("triple", TRIPLE, "inference+rejections", str(ex), loc)
         return
@@ -343,6 +363,8 @@ def _parse_attrs(ctx: Ctx, c: Collector) -> None:
             return aeval(t[2][1], combo) if len(t[2]) > 1 else "None"
         if t[0] in ("phi", "ifexp"):
             return aeval(t[2], combo) if ceval(t[1], combo) else aeval(t[3], combo)
+        if t[0] == "var" and t[1] not in fi.params:
+            raise Definite(f"for a {ty} simulator (any_inputs={anyin}, keys {sorted(present)}) the local `{t[1]}` is used but not assigned on that path")
         raise Unknown(f"value {T.show(t)[:80]} not understood")
 
     bad_in: List[str] = []
@@ -369,6 +391,9 @@ def _parse_attrs(ctx: Ctx, c: Collector) -> None:
                         got = tuple(aeval(x, combo) for x in c_out.term[2][:3])
                         if got != (outs, exp_p, exp_np):
                             bad_out.append(f"{ty}, keys {sorted(present)}: (attrs, persistent, non-persistent) = {got}, expected {(outs, exp_p, exp_np)}")
+    except Definite as ex:
+        c.bad("defaults", PARSE, "defaults table", str(ex), loc)
+        return
     except Unknown as ex:
         c.unk("defaults", PARSE, "defaults table", str(ex), loc)
         return
